@@ -476,6 +476,11 @@ class ReadSetReader:
                 continue
             else:
                 seen_pos.add(v.position)
+            if any(alt.startswith("<") for alt in v.get_alt_allele_list()):
+                # Symbolic alleles like <DEL>, <DUP>, etc. cannot be detected from the alignment
+                conflicting.add(j)
+                j += 1
+                continue
             ref = len(v.reference_allele)
             max_del = max(ref - len(alt) for alt in v.get_alt_allele_list())
             if max_del > 0:
